@@ -127,7 +127,8 @@ def gen_norm_case(rng, thorough=False):
     nsteps = rng.randint(4, 8 if thorough else 6)
     pres = c01.gen_presence(rng, len(shapes), nsteps)
     steps = [{"present": [pres[0][s]], "gseed": rng.randrange(1 << 30), "edits": None} for s in range(nsteps)]
-    return {"groups": [{"cfg": c, "shapes": shapes}], "init_seed": rng.randrange(1 << 30), "steps": steps, "presence_kinds": [pres[1]]}
+    return c01.condition_guard({"groups": [{"cfg": c, "shapes": shapes}], "init_seed": rng.randrange(1 << 30), "steps": steps,
+                                "presence_kinds": [pres[1]]})
 
 
 # ------------------------------------------------------------------------------------------ the two optimizers side by side
